@@ -38,7 +38,7 @@ theorem detectDepMode_concrete_inv (mode : InputMode) : ∀ (fns : List TraitFn)
 
 theorem bodies_fn (attr : Toks) (item : Item) (hi : ∀ t, item ≠ .trait t) (mode : InputMode) (hm : mode ≠ .implBlock)
     (fns : List TraitFn) :
-    (fns.map fun tf => GenMember.fn [] tf.sig (some (delegatingBody mode .none tf))).all (staticBodyOk attr item) = true := by
+    (fns.map fun tf => GenMember.fn tf.attrs tf.sig (some (delegatingBody mode .none tf))).all (staticBodyOk attr item) = true := by
   simp only [List.all_map, List.all_eq_true]
   intro tf _
   simp only [Function.comp, staticBodyOk]
@@ -49,7 +49,7 @@ theorem bodies_fn (attr : Toks) (item : Item) (hi : ∀ t, item ≠ .trait t) (m
   | impl m => simp [C01.parseCall_delegatingBody mode hm tf]
 
 theorem bodies_impl (attr : Toks) (m : ImplItemIn) (ind : ImplIndirection) (hind : ind.isNone = false) (fns : List TraitFn) :
-    (fns.map fun tf => GenMember.fn [] tf.sig (some (delegatingBody .implBlock ind tf))).all (staticBodyOk attr (.impl m)) = true := by
+    (fns.map fun tf => GenMember.fn tf.attrs tf.sig (some (delegatingBody .implBlock ind tf))).all (staticBodyOk attr (.impl m)) = true := by
   simp only [List.all_map, List.all_eq_true]
   intro tf _
   simp only [Function.comp, staticBodyOk, delegatingBody, C07.selfCommaOf_ind ind hind tf, List.nil_append,
@@ -97,7 +97,7 @@ theorem T_C14 (v : Variant) (attr : Toks) (item : Item) (out : Out)
       simp only [expand] at h
       split at h
       · simp at h
-      · obtain ⟨items, a, fns, tg, depMode, implBlock, h0, h1, h2, h3, h4, rfl⟩ := expandMod_ok h
+      · obtain ⟨items, a, fns0, fns, tg, depMode, implBlock, h0, h1, h2, hfns, h3, h4, rfl⟩ := expandMod_ok h
         have him := genImplBlock_ok h4
         have hg : depMode = .generic := by
           cases depMode with
@@ -112,7 +112,7 @@ theorem T_C14 (v : Variant) (attr : Toks) (item : Item) (out : Out)
           Bool.false_or, macroHead_implParams, implSelfTy]
         cases (v.apply a.opts).mockable <;> simp
     | impl m =>
-      obtain ⟨items, a, fns, tg, depMode, implBlock, h0, h1, h2, h3, h4, rfl⟩ := expandImpl_ok h
+      obtain ⟨items, a, fns0, fns, tg, depMode, implBlock, h0, h1, h2, hfns, h3, h4, rfl⟩ := expandImpl_ok h
       have him := genImplBlock_ok h4
       obtain ⟨hg, _⟩ := C07.detectDepMode_impl fns depMode h3
       subst hg
